@@ -237,7 +237,7 @@ impl Engine for C03 {
         judge(&texts, case["base"].as_str().unwrap_or(""))
     }
     fn rule(&self) -> String {
-        "accepted programs of the kind-directed fragments F1-F10, of the kind-agnostic space (<= k constructors x 28 contexts) and of the annotation matrix, plus fragments x base documents; oracle: independent validator on the YAML value (every $ref resolves; path template variables == required path parameters per operation; response keys are default / 100-599 / 1XX-5XX; operationIds unique unless written by the program) and typed round trip (parses back to an equal document and re-serialises byte-identically). Non-trivial = a document was emitted; distinct = distinct YAML texts".into()
+        "accepted programs of the kind-directed fragments F1-F10, of the kind-agnostic space (<= k constructors x 28 contexts) and of the annotation matrix, plus fragments x base documents; oracle: independent validator on the YAML value (every $ref resolves; path template variables == required path parameters per operation; response keys are default / 100-599 / 1XX-5XX; operationIds unique unless written by the program; no (in, name) pair twice in one parameter list unless the program writes the name twice; every parameter has a name, a place and a schema; every operation has responses; every path starts with /; array schemas have items and `required` lists distinct properties of its object) and typed round trip (parses back to an equal document and re-serialises byte-identically). Non-trivial = a document was emitted; distinct = distinct YAML texts".into()
     }
     fn assumptions(&self) -> Vec<String> {
         vec![
